@@ -148,6 +148,10 @@ class Ctx:
         if rc != 0:
             raise HarnessError("permute failed: %s\n%s" % (" ".join(cmd), e[-2000:]))
         c["states"][key] = out
+        try:
+            c.setdefault("canon", {})[key] = hashlib.sha1(open(out + ".canon", "rb").read()).hexdigest()
+        except OSError:
+            pass
         return out
 
     def run_tool(self, corpus, edits, backend, amb):
@@ -377,6 +381,14 @@ def run_case(ctx, corpus, edits, i, backend, amb_a, amb_b):
     ref_edits = reference_state(edits, i)
     before = ctx.run_tool(corpus, ref_edits, backend, amb_a)
     after = ctx.run_tool(corpus, edits[:i + 1] if e != "<original>" else edits, backend, amb_b)
+    if oracle in ("D2", "D3-remove") and e != "<original>":
+        # safety net of the harness itself: these oracles compare two states that must be the *same program* up to
+        # declaration order. If the edit histories did not commute (a harness mistake), the comparison is void.
+        canon = ctx.corpora[corpus].get("canon", {})
+        ca, cb = canon.get(";".join(ref_edits)), canon.get(";".join(edits[:i + 1]))
+        if ca is not None and cb is not None and ca != cb:
+            ctx.inc("reference_state_not_equivalent_comparison_skipped")
+            return oracle, None, before, after
     diff = compare(ctx, backend, before, after, oracle, e)
     return oracle, diff, before, after
 
